@@ -176,9 +176,21 @@ impl Receiver {
             fdt.1.update_expired_state(now);
         });
 
+        let object_timeout = self.config.object_timeout;
+        let now_instant = Instant::now();
         self.fdt_receivers.retain(|_, fdt| {
             let state = fdt.state();
-            state == fdtreceiver::FDTState::Complete || state == fdtreceiver::FDTState::Receiving
+            if state == fdtreceiver::FDTState::Receiving {
+                // An FDT instance that is never completed is released like a stalled object
+                if let (Some(timeout), Some(idle)) = (
+                    object_timeout.as_ref(),
+                    fdt.last_activity_duration_since(now_instant),
+                ) {
+                    return !idle.gt(timeout);
+                }
+                return true;
+            }
+            state == fdtreceiver::FDTState::Complete
         });
     }
 
